@@ -90,6 +90,11 @@ MANUAL = {
     # automatic rule skip it; reviewed: whenever lines 4a/4b consult it and it is yes, they refuse
     '1040.ira_exception4_you': {'polarity': True, 'readers': ['1040'], 'why': 'HSA funding distribution is not implemented'},
     '1040.ira_exception4_spouse': {'polarity': True, 'readers': ['1040'], 'why': 'HSA funding distribution is not implemented'},
+    # gates on a statement (W-2, 1099-R) that Form 1040 consults through the statement's LINE of the same name (v[...], not
+    # i[...]): consulted = a line of a reader form read that line; reviewed by hand in all years that have the input
+    'w-2.box_13_statutory': {'polarity': True, 'readers': ['1040'], 'via_line': True, 'why': 'statutory employees are not implemented (Form 1040 line 1)'},
+    '1099-r.box_2b_taxable_not_determined': {'polarity': True, 'readers': ['1040'], 'via_line': True,
+                                             'why': 'pension with undetermined taxable amount is not implemented (lines 5a/5b); only consulted for non-IRA distributions'},
 }
 
 
